@@ -1,9 +1,16 @@
 (* C06 - Evaluator-driven bindings change only on evaluateAll, then are fully up to date.
-   Proved on coq/PropDefs.v: silence (below).  "Fully up to date after one evaluateAll, in creation order, notifying
-   only real changes" is checked on every generated history by the model's own checker PropCheck.check_c06_after_evalall
-   and by correspondence with the real library (a test, not a proof); bindings that were reset / replaced / destroyed
-   leave the registry in destroy_binding (definition), which is what evaluateAll iterates. *)
+   Proved on coq/PropDefs.v (the executable model): silence (below).
+   Proved on the abstract model coq/PropAbsLazy.v (trees, markDirty with early return and cached evaluation of coq/PropAbs.v; a
+   notification only marks; evaluateAll evaluates the registered bindings in creation order, each assigning its result through
+   setHelper, which marks the readers): ONE evaluateAll over bindings registered in dependency order leaves every registered
+   binding clean and every bound property equal to the denotation of its expression over the values after the pass
+   (C06_one_pass_consistent_abstract), for every network, every interpretation of the functions and every delivery order.
+   PARTIAL: the executable model is tied to this abstract theorem by the extracted checker PropCheck.check_c06_after_evalall on
+   every evaluateAll of every generated history and by correspondence with the real library (tests), not by a refinement proof;
+   bindings that were reset / replaced / destroyed leave the registry in destroy_binding (definition), which is what evaluateAll
+   iterates, and own no subscription any more (C07_reset_disconnects, C10_no_orphan_subscription). *)
 From KDB Require Import Util PropDefs PropProofs.
+From KDB Require PropAbs PropAbsLazy.
 
 (* a notification reaching a node of an evaluator-driven binding only sets dirty flags *)
 Theorem C06_notification_only_marks :
@@ -29,6 +36,36 @@ Print Assumptions C06_silent_until_evaluate.
 Theorem C06_clean_runs_nothing : forall fn rtl val t, root_dirty t = false -> snd (eval fn rtl val t) = [].
 Proof. exact eval_clean_runs_nothing. Qed.
 Print Assumptions C06_clean_runs_nothing.
+
+(* ---- the abstract model of evaluator-driven bindings ---- *)
+(* LInv: dirty flags sound (a clean operator node has clean children and caches what it would compute from them), leaf ids unique,
+   every leaf among the readers of the property it reads and every reader entry designating such a leaf; chain: no registered binding
+   reads itself or one registered after it *)
+Theorem C06_one_pass_consistent_abstract :
+  forall F1 F2 F3 order regs s,
+    PropAbsLazy.LInv F1 F2 F3 order s -> NoDup regs -> PropAbsLazy.chain s regs ->
+    forall q t, In q regs -> PropAbsLazy.ltr (PropAbsLazy.eval_all F1 F2 F3 order regs s) q = Some t ->
+      PropAbs.clean t /\
+      PropAbsLazy.lenv (PropAbsLazy.eval_all F1 F2 F3 order regs s) q =
+        PropAbs.den F1 F2 F3 (PropAbsLazy.lenv (PropAbsLazy.eval_all F1 F2 F3 order regs s)) t.
+Proof. exact PropAbsLazy.eval_all_consistent. Qed.
+Print Assumptions C06_one_pass_consistent_abstract.
+
+(* the invariant is kept by assignments (which only mark) and by evaluations *)
+Theorem C06_invariant_kept_abstract :
+  forall F1 F2 F3 order s,
+    PropAbsLazy.LInv F1 F2 F3 order s ->
+    (forall p v, PropAbsLazy.LInv F1 F2 F3 order (PropAbsLazy.lset order s p v)) /\
+    (forall q, PropAbsLazy.LInv F1 F2 F3 order (PropAbsLazy.eval_one F1 F2 F3 order s q)).
+Proof. exact PropAbsLazy.linv_kept. Qed.
+Print Assumptions C06_invariant_kept_abstract.
+
+(* until the pass an assignment to an input changes the value of no other property *)
+Theorem C06_assignment_changes_nothing_else_abstract :
+  forall (F1 : nat -> Z -> Z) (F2 : nat -> Z -> Z -> Z) (F3 : nat -> Z -> Z -> Z -> Z) order s p v q,
+    PropAbsLazy.ltr s p = None -> q <> p -> PropAbsLazy.lenv (PropAbsLazy.lset order s p v) q = PropAbsLazy.lenv s q.
+Proof. exact PropAbsLazy.lset_silent. Qed.
+Print Assumptions C06_assignment_changes_nothing_else_abstract.
 
 (* non-vacuity: a chain created in dependency order is consistent after ONE evaluateAll; before it nothing moves *)
 Example C06_example :
